@@ -270,9 +270,10 @@ func bipSpec(size int) *engine.BFS[*bipState] {
 	ops = append(ops, "Reset()")
 	od = append(od, opd{'r', 0})
 	return &engine.BFS[*bipState]{
-		Name: fmt.Sprintf("size=%d", size),
-		New:  func() *bipState { return bipNew(size) },
-		Ops:  ops,
+		Name:  fmt.Sprintf("size=%d", size),
+		Depth: 80, // the fixpoint is reached by depth 25 for size 12; the cap only bounds a defect-induced endless chain
+		New:   func() *bipState { return bipNew(size) },
+		Ops:   ops,
 		Apply: func(s *bipState, op int) (bool, *engine.Violation) {
 			d := od[op]
 			switch d.kind {
@@ -303,10 +304,15 @@ func bipSizes(tier string) []int {
 func C10(tier string) *engine.Report {
 	rep := engine.NewReport("C10", tier, "model_checking")
 	var tot engine.BFSTotals
+	deadline := engine.Cap(tier) // one wall-clock budget for the whole check
 	for _, size := range bipSizes(tier) {
 		sp := bipSpec(size)
-		sp.Until = engine.Cap(tier)
-		tot.Add(sp.Name, sp.Run(), rep)
+		sp.Until = deadline
+		r := sp.Run()
+		if !r.Fixpoint {
+			r.Capped = true // this search is meant to reach a fixpoint; anything less is reported as not exhaustive
+		}
+		tot.Add(sp.Name, r, rep)
 	}
 	tot.Fill(rep, "complete reachable state space of a real sonic.BipBuffer per size under Claim/Commit/Consume(0..size+1) and Reset, BFS to fixpoint; "+
 		"state = all integer fields of the implementation + model chunk layout; every transition executes the real method and the FIFO-of-chunks model in lock-step")
